@@ -135,8 +135,9 @@ func (d *Decoder) DecodeTag() (tag int, wireType WireType, err error) {
 	if err != nil {
 		return 0, -1, fmt.Errorf("invalid data at byte %d: %w", d.offset, err)
 	}
-	if n < 1 || v < 1 || v > MaxTagValue {
-		return 0, -1, fmt.Errorf("invalid tag value (%d) at byte %d: %w", v, d.offset, ErrInvalidFieldTag)
+	// the field number is the key without the 3 wire type bits
+	if n < 1 || v>>3 < 1 || v>>3 > MaxTagValue {
+		return 0, -1, fmt.Errorf("invalid tag value (%d) at byte %d: %w", v>>3, d.offset, ErrInvalidFieldTag)
 	}
 	d.offset += n
 	return int(v >> 3), WireType(v & 0x7), nil
